@@ -7,29 +7,39 @@ package md
 
 //@ package md
 //@
+//@ # C19: a markdown file is read as a sequence of RUNES (so that rune columns of code text are preserved), blanked by
+//@ # loadMd and converted back
+//@ func GetSource
+//@   prop C19
+//@   ensures [err] imp(result1 != nil, result1 == FileErr(mdfile))
+//@   ensures [read-error] imp(FileErr(mdfile) != nil, result1 != nil)
+//@
 //@ func loadMd
 //@   prop C19
+//@   # the input is the rune decoding of some text (what []rune(string(file)) yields), not raw bytes
+//@   requires [runes] existsS(s, decodes(input, s))
 //@   # Fence(i): a ``` fence starts at rune index i of the *input* as given.
 //@   ghost Fence(i int) bool = 0 <= i && i <= len(input)-3 && input[i] == '`' && input[i+1] == '`' && input[i+2] == '`'
 //@   # Code(i): an odd number of fences start before index i (i.e. index i lies in a fenced block, fences toggle the mode)
 //@   ghost Code(i int) bool
 //@   ghostaxiom [code0] Code(0) == false
 //@   ghostaxiom [codeS] all(i, 0, len(input), Code(i+1) == (Code(i) != Fence(i)), trig(Code(i)))
-//@   # the property quantifies over files whose fences are bare ``` runs: fence starts do not overlap or touch
-//@   requires [bare] all(i, 0, len(input), imp(Fence(i), !Fence(i+1) && !Fence(i+2) && !Fence(i+3)))
+//@   # the property quantifies over files whose fences are bare ``` runs: fence starts do not overlap or touch.
+//@   # It is a hypothesis of the functional clauses, not a precondition: loadMd is safe and terminates on every input.
+//@   ghost Bare() bool = all(i, 0, len(input), imp(Fence(i), !Fence(i+1) && !Fence(i+2) && !Fence(i+3)))
 //@   ensures [len] len(input) == old(len(input))
-//@   ensures [fence] all(i, 0, len(input), imp(Fence(i) || Fence(i-1) || Fence(i-2), input[i] == ' '))
-//@   ensures [code] all(i, 0, len(input), imp(!(Fence(i) || Fence(i-1) || Fence(i-2)) && Code(i), input[i] == old(input[i])))
-//@   ensures [prose] all(i, 0, len(input), imp(!(Fence(i) || Fence(i-1) || Fence(i-2)) && !Code(i), input[i] == ite(old(input[i]) == '\n', '\n', ' ')))
+//@   ensures [fence] imp(Bare(), all(i, 0, len(input), imp(Fence(i) || Fence(i-1) || Fence(i-2), input[i] == ' ')))
+//@   ensures [code] imp(Bare(), all(i, 0, len(input), imp(!(Fence(i) || Fence(i-1) || Fence(i-2)) && Code(i), input[i] == old(input[i]))))
+//@   ensures [prose] imp(Bare(), all(i, 0, len(input), imp(!(Fence(i) || Fence(i-1) || Fence(i-2)) && !Code(i), input[i] == ite(old(input[i]) == '\n', '\n', ' '))))
 //@   assigns elems(input)
 //@   loop 1
 //@     invariant [i] 0 <= i && i <= len(input)
-//@     invariant [aligned] !Fence(i-1) && !Fence(i-2)
-//@     invariant [mode] text == !Code(i)
+//@     invariant [aligned] imp(Bare(), !Fence(i-1) && !Fence(i-2))
+//@     invariant [mode] imp(Bare(), text == !Code(i))
 //@     invariant [rest] all(k, i, len(input), input[k] == old(input[k]))
-//@     invariant [fence] all(k, 0, i, imp(Fence(k) || Fence(k-1) || Fence(k-2), input[k] == ' '))
-//@     invariant [code] all(k, 0, i, imp(!(Fence(k) || Fence(k-1) || Fence(k-2)) && Code(k), input[k] == old(input[k])))
-//@     invariant [prose] all(k, 0, i, imp(!(Fence(k) || Fence(k-1) || Fence(k-2)) && !Code(k), input[k] == ite(old(input[k]) == '\n', '\n', ' ')))
+//@     invariant [fence] imp(Bare(), all(k, 0, i, imp(Fence(k) || Fence(k-1) || Fence(k-2), input[k] == ' ')))
+//@     invariant [code] imp(Bare(), all(k, 0, i, imp(!(Fence(k) || Fence(k-1) || Fence(k-2)) && Code(k), input[k] == old(input[k]))))
+//@     invariant [prose] imp(Bare(), all(k, 0, i, imp(!(Fence(k) || Fence(k-1) || Fence(k-2)) && !Code(k), input[k] == ite(old(input[k]) == '\n', '\n', ' '))))
 //@     decreases len(input) - i
 //@   loop 2
 //@     unroll 3
